@@ -469,13 +469,15 @@ func lenVariant(b []byte, v int) (rc.Val, bool) {
 		return rc.Bytes(b[1:]), true // short: leading byte dropped (also what a trimming peer does when it is zero)
 	case 2:
 		return rc.Bytes(b), true
+	case 4:
+		return rc.Bytes(append(append([]byte{}, b...), b...)), true // double length (e.g. a whole ed25519.PrivateKey in d)
 	}
 	return rc.Bytes(append([]byte{0}, b...)), true
 }
 
-func TestC15_Grid(t *testing.T) {
-	begin(t, "C15", "grid")
-	sh, nsh := gridShard()
+// forEachKeyGridCell enumerates the COSE_Key grid; cell i is visited by shard
+// i % nsh == sh. It returns the total number of cells.
+func forEachKeyGridCell(sh, nsh int, f func(cell string, wire []byte)) int {
 	ktys := []rc.Val{rc.Int(0), rc.Int(1), rc.Int(2), rc.Int(4), rc.Int(3), rc.Int(-1), rc.Text("EC2")}
 	crvs := []struct {
 		name string
@@ -503,9 +505,9 @@ func TestC15_Grid(t *testing.T) {
 			x0, y0, d0 := c15Coords(ci)
 			for _, alg := range algs {
 				for _, op := range ops {
-					for xv := 0; xv < 4; xv++ {
-						for yv := 0; yv < 4; yv++ {
-							for dv := 0; dv < 4; dv++ {
+					for xv := 0; xv < 5; xv++ {
+						for yv := 0; yv < 5; yv++ {
+							for dv := 0; dv < 5; dv++ {
 								cnt++
 								if cnt%nsh != sh {
 									continue
@@ -529,9 +531,7 @@ func TestC15_Grid(t *testing.T) {
 								if v, ok := lenVariant(d0, dv); ok {
 									m.M = append(m.M, rc.E(rc.Int(-4), v))
 								}
-								c := c15Case{Wire: rc.Encode(m, nil), Cell: fmt.Sprintf("kty=%s crv=%s alg=%s ops=%s x=%d y=%d d=%d", kty, crv.name, alg.name, op.name, xv, yv, dv)}
-								stats.Eval()
-								judge(t, "c15", c, checkC15)
+								f(fmt.Sprintf("kty=%s crv=%s alg=%s ops=%s x=%d y=%d d=%d", kty, crv.name, alg.name, op.name, xv, yv, dv), rc.Encode(m, nil))
 							}
 						}
 					}
@@ -539,6 +539,16 @@ func TestC15_Grid(t *testing.T) {
 			}
 		}
 	}
+	return cnt
+}
+
+func TestC15_Grid(t *testing.T) {
+	begin(t, "C15", "grid")
+	sh, nsh := gridShard()
+	cnt := forEachKeyGridCell(sh, nsh, func(cell string, wire []byte) {
+		stats.Eval()
+		judge(t, "c15", c15Case{Wire: wire, Cell: cell}, checkC15)
+	})
 	stats.ExhaustivePart("kty x crv x alg x key_ops x len(x) x len(y) x len(d)", cnt/nsh)
 }
 
